@@ -286,7 +286,7 @@ impl Engine for Updates {
         for (step, e) in c.edits.iter().enumerate() {
             out.evals += 1;
             if let Edit::AppResize { base, d, .. } = e {
-                if d.abs() <= 8 {
+                if d.unsigned_abs() <= 8 {
                     out.label(match base % 3 {
                         0 => "delta-near-zero",
                         1 => "delta-near-padding-size",
@@ -498,21 +498,25 @@ pub fn run(ctx: &Ctx) {
             .prop_map(|(base, edits, on_disk)| UpdateCase { base, edits, on_disk })
             .boxed()
     });
-    // the 24-bit limit: padding near 2^24 - 1 and an oversize block
+    // the 24-bit limit: first padding block a bytes below 2^24 - 1, first edit frees b bytes:
+    // every (a, b) around the point where the grown padding would no longer fit its size field
     let big = Updates;
     let mut cases = vec![];
-    let n_big = if t == Tier::Quick { 6 } else { 40 };
-    for k in 0..n_big {
-        cases.push(UpdateCase {
-            base: BaseSpec { pads: vec![(1 << 24) - 1 - (k % 5) as u32, 10], apps: vec![20, 0], comment: k % 2 == 0, picture: false, rotate: k as u8 },
-            edits: vec![
-                Edit::AppResize { idx: 0, base: 0, d: -(k as i8 % 9) },
-                Edit::AppResize { idx: 0, base: 0, d: (k as i8 % 7) + 1 },
-                if k % 3 == 0 { Edit::HugeApp } else { Edit::RemoveComment },
-                Edit::SetTitle { len: 100 },
-            ],
-            on_disk: false,
-        });
+    let (na, nb) = if t == Tier::Quick { (6u32, 11i8) } else { (12u32, 20i8) };
+    for a in 0..na {
+        for b in 0..nb {
+            let k = a as usize * nb as usize + b as usize;
+            cases.push(UpdateCase {
+                base: BaseSpec { pads: vec![(1 << 24) - 1 - a, 10], apps: vec![40, 0], comment: k % 2 == 0, picture: false, rotate: (k % 5) as u8 },
+                edits: vec![
+                    Edit::AppResize { idx: 0, base: 0, d: -b },
+                    Edit::AppResize { idx: 0, base: 0, d: (k as i8 % 7) + 1 },
+                    if k % 3 == 0 { Edit::HugeApp } else { Edit::RemoveComment },
+                    Edit::SetTitle { len: 100 },
+                ],
+                on_disk: false,
+            });
+        }
     }
     ctx.run_cases(&big, &cases);
 }
